@@ -23,7 +23,7 @@ REQUIRED_COUNTERS = {'api:open_fp:ok': 1, 'view_entries': 10}
 
 
 def plan(tier):
-    return 400 if tier == 'quick' else 25000
+    return 2000 if tier == "quick" else 40000
 
 
 def check_history(cfg, ops, seed, counters=None, big=False):
